@@ -18,7 +18,19 @@ WhyLoad(c) == LET p == ParsePSBT(c.bytes) IN
 WhyFlow(c) ==     \* c.signed: number of distinct signers that contributed; c.m: quorum
   IF c.signed >= c.m THEN (IF c.res # "ok" THEN "enough-signers-but-no-valid-transaction" ELSE IF ~c.verifies THEN "extracted-transaction-does-not-verify" ELSE "")
   ELSE (IF c.res = "ok" THEN "transaction-extracted-with-fewer-than-m-signers" ELSE "")
-Why(c) == CASE c.kind = "psbt" -> WhyPsbt(c) [] c.kind = "load" -> WhyLoad(c) [] c.kind = "flow" -> WhyFlow(c)
+\* The finalised input of an m-of-n spend: dummy, exactly m of the contributed signatures in the order of their keys in the
+\* script, then the script (what OP_CHECKMULTISIG with NULLDUMMY and the clean-stack rule accepts); single-key: <<sig, key>>.
+KeyIndex(c, sig) == LET hit == {k \in 1..Len(c.keys) : \E j \in 1..Len(c.sigs) : c.sigs[j][1] = c.keys[k] /\ c.sigs[j][2] = sig} IN
+                    IF hit = {} THEN 0 ELSE CHOOSE k \in hit : TRUE
+WhyFinal(c) ==
+  IF c.single THEN (IF Len(c.items) = 2 /\ c.items[2] = c.keys[1] /\ KeyIndex(c, c.items[1]) = 1 THEN "" ELSE "final-single-key-input-shape")
+  ELSE IF Len(c.items) # c.m + 2 THEN "final-multisig-input-has-" \o (IF Len(c.items) > c.m + 2 THEN "more" ELSE "fewer") \o "-than-m-signatures"
+  ELSE IF c.items[1] # <<>> THEN "final-multisig-dummy-not-empty"
+  ELSE IF c.items[c.m + 2] # c.script THEN "final-multisig-script-differs"
+  ELSE IF \E j \in 1..c.m : KeyIndex(c, c.items[j + 1]) = 0 THEN "final-multisig-signature-not-among-the-partial-signatures"
+  ELSE IF \E j \in 1..(c.m - 1) : KeyIndex(c, c.items[j + 1]) >= KeyIndex(c, c.items[j + 2]) THEN "final-multisig-signatures-not-in-key-order"
+  ELSE ""
+Why(c) == CASE c.kind = "psbt" -> WhyPsbt(c) [] c.kind = "load" -> WhyLoad(c) [] c.kind = "flow" -> WhyFlow(c) [] c.kind = "final" -> WhyFinal(c)
             [] c.kind = "eq" -> (IF c.a = c.b THEN "" ELSE c.what)
 VARIABLES i, bad
 Init == i = 1 /\ bad = <<>>
